@@ -62,7 +62,7 @@ Proof.
   - intros p b IHb c Hn x. cbn [an nofn] in *. unfold visit_do_while.
     rewrite (with_child_cur KLoop (pos b) (fun a => dowhile_post current c (pos b) (an current b a)) (fun a => dowhile_post repaired c (pos b) (an repaired b a)));
       [apply dowhile_tail_cur | discriminate | intros y; rewrite (IHb Hn); reflexivity].
-  - intros p c b IHb Hn x. cbn [an nofn] in *. unfold visit_for.
+  - intros p i c u b IHb Hn x. cbn [an nofn] in *. unfold visit_for.
     apply with_child_cur; [discriminate | intros y; rewrite (IHb Hn); reflexivity].
   - intros p b IHb Hn x. cbn [an nofn] in *. unfold visit_for_in.
     apply with_child_cur; [discriminate | intros y; rewrite (IHb Hn); reflexivity].
@@ -108,7 +108,7 @@ Proof.
     rewrite A1, A2, B1, B2. split; reflexivity.
   - intros p c b IHb H. destruct (IHb H) as [B1 B2]. rewrite B1, B2. split; reflexivity.
   - intros p b IHb c H. destruct (IHb H) as [B1 B2]. rewrite B1, B2. split; reflexivity.
-  - intros p c b IHb H. destruct (IHb H) as [B1 B2]. rewrite B1, B2. split; reflexivity.
+  - intros p i c u b IHb H. destruct (IHb H) as [B1 B2]. rewrite B1, B2. split; reflexivity.
   - intros p b IHb H. split; [apply IHb; exact H | reflexivity].
   - intros p b IHb H. split; [apply IHb; exact H | reflexivity].
   - intros p cs IH H. split; [apply IH; exact H | reflexivity].
